@@ -77,6 +77,8 @@ def run(chk):
     failpure.run(chk, units)
     failpure.run_commit_last(chk, "asmjit/core/codeholder.cpp", r"asmjit::CodeHolder::[a-z_0-9]+$")
     failpure.run_release_not_failed(chk, [("asmjit/core/virtmem.cpp", r"asmjit::VirtMem::[A-Za-z_0-9]+$"), ("asmjit/core/jitallocator.cpp", r"asmjit::JitAllocator")])
+    from lib import outclean
+    outclean.run(chk)
 
     return chk.finish(
         level="other",
